@@ -2,6 +2,8 @@ import GB.Base.Proto
 import GB.C08.Spec
 import GB.C08.Mime
 import GB.C08.Handoff
+import GB.C08.Trailer
+import GB.C08.Fence
 /-
   C08 — driver: judges one case line of the `c08` area.
 
@@ -295,7 +297,7 @@ def handleHTTP (i o : List String) : String :=
           let rvOK : Bool := early || (oresListEq rv mrv && chunkOK)
           let md := match parseTrailer block with | some m => m | none => []
           let bodyOK : Bool := beqB body (respondHTTPWith msgs md) &&
-            mdLines md == mdLines (trailerWithStatus tr oc om) && subMD tr tm
+            mdLines md == mdLines (encodeMD (trailerWithStatus tr oc om)) && subMD tr tm
           let ocOK : Bool := if routed then
               (match rv.getLast? with | some (.err c) => early || oc == c | _ => true)
             else routeOutcomeOK rt oc om && rv.isEmpty && tg.isEmpty && sd.isEmpty
@@ -476,7 +478,7 @@ def handleWS (i o : List String) : String :=
           let md := match parseTrailer block with | some m => m | none => []
           let hmd := match hdr with | some h => (match parseTrailer h with | some m => m | none => [([0], [])]) | none => []
           let respOK : Bool := beqBs wsm (wsRespondWith hmd msgs md) && (hdr.isSome == !msgs.isEmpty) && hmd.isEmpty &&
-            mdLines md == mdLines (trailerWithStatus tr oc om) && subMD tr tm
+            mdLines md == mdLines (encodeMD (trailerWithStatus tr oc om)) && subMD tr tm
           let ocOK : Bool := if routed then
               ocs != "-" && (match rv.getLast? with | some (.err c) => early || oc == c | _ => true)
             else if !hdOK then oc == 3 && ocs == "-" && rv.isEmpty && tg.isEmpty && sd.isEmpty
@@ -523,7 +525,7 @@ def handle : Handler
           match parseTrailer block with
           | some omd =>
             if w ≠ lpmTrailer omd then "DIFF model=lpmTrailer"
-            else if mdLines omd ≠ mdLines (trailerWithStatus md c m) then "DIFF model=trailerWithStatus"
+            else if mdLines omd ≠ mdLines (encodeMD (trailerWithStatus md c m)) then "DIFF model=trailerWithStatus"
             else "OK nt b=trl"
           | none => "VIOL trailer block unparsable"
       | _ => "VIOL not a single trailer frame"
